@@ -22,6 +22,8 @@ func init() {
 		add(&quick, 2, 2, 3, 1, 1, 0)
 		add(&quick, 0, 1, 4, 1, 0, 0) // shutdown order: the parent context ends, then Close
 		add(&quick, 2, 2, 4, 1, 0, 0)
+		add(&quick, 0, 0, 0, 1, 4, 1) // non-timeout net.Error wrapped (%w) by the reading handler, exception swallowed
+		add(&quick, 2, 0, 0, 0, 4, 1)
 		add(&thorough, 0, 3, 0, 1, 0, 0)
 		add(&thorough, 2, 3, 0, 1, 0, 0)
 		add(&thorough, 0, 2, 1, 2, 0, 0)
@@ -111,9 +113,13 @@ func init() {
 				quick = append(quick, &Job{Pkg: "", Func: "ZZ_C07_CloseThenPanic", Args: []int64{entry, (entry + conc) % 5, conc * 2, conc}, Bounds: bc})
 			}
 		}
+		bp := "the channel's parent context has ended but the channel is still open when a handler panics (read handler that cancels and panics in one delivery, Channel.Write, Channel.Trigger); exception handler absent / forwarding / swallowing"
+		for _, c := range [][]int64{{0, 0, 0}, {0, 1, 0}, {0, 2, 2}, {1, 2, 0}, {1, 0, 2}, {2, 1, 0}, {1, 1, 0}, {2, 2, 2}} {
+			quick = append(quick, &Job{Pkg: "", Func: "ZZ_C07_PanicAfterParentCancel", Args: c, Bounds: bp})
+		}
 		Specs["C07"] = &Spec{
 			Jobs: jobsBy(quick, thorough), Labels: labelFilter("c07-"),
-			MustReach: []string{"c07-bomb-fired", "c07-closed", "c07-open", "c07-fault-closed", "c07-fault-reported", "c07-close-then-panic-done"},
+			MustReach: []string{"c07-bomb-fired", "c07-closed", "c07-open", "c07-fault-closed", "c07-fault-reported", "c07-close-then-panic-done", "c07-parent-cancel-done"},
 			Bounds: map[string]string{
 				"quick":    "one third of the 90 (entry, event, panic value, exception-handler mode) combinations with two candidate handler positions, plus 12 of the 60 combinations with the exception handler in front of the failing handler; 7 transport-fault scenarios",
 				"thorough": "all 150 combinations; 6 more transport-fault scenarios",
